@@ -24,7 +24,7 @@ RULE = ("cases: (factory, parameters, seed).  distinct = distinct triple; non-tr
         ' Also: falsy and integer parameters, narrow numpy scalars as parameters, intervals of minute width, deep copies of the callables, the three factories called with equal parameters one after another, zero() after ANM histories with shift interventions, lag-2/5 and half-sample statistics.')
 ASSUMPTIONS = ["DKW inequality for i.i.d. samples of a continuous law; z-score escalation as in DESIGN.md section 2 rule 3"]
 EXHAUSTIVE = {"quick": False, "thorough": False}
-SOFT_LIMIT = {"quick": 240, "thorough": 1500}
+SOFT_LIMIT = {"quick": 1200, "thorough": 5400}      # generous wall-clock watchdogs (a loaded machine must not cut a workload short); normal run times are in the evidence
 REQUIRED_FUNCS = ["sempler/noise.py:normal", "sempler/noise.py:uniform", "sempler/noise.py:laplace", "sempler/noise.py:zero",
                   "sempler/functions.py:null"]
 REQUIRED_COUNTERS = {t: {"dkw:normal": 30, "dkw:uniform": 10, "dkw:laplace": 20, "zero:checked": 2, "null:checked": 2, "repro:seeded-equal": 50,
